@@ -322,7 +322,7 @@ func runC17(c *Ctx) {
 		okDid := false
 		for _, r := range successReturns(parseDID) {
 			p0 := c.Path(r.Results[0], nil)
-			if p0 == "$2[0:"+li+"]" {
+			if p0 == "$2[:"+li+"]" {
 				okDid = true
 			}
 		}
@@ -644,6 +644,20 @@ func (c *Ctx) canonCond(cond ssa.Value, truth bool) string {
 			break
 		}
 		cond, truth = u.X, !truth
+	}
+	// a predicate helper with one exit stands for the condition it returns, rendered in the caller's frame
+	if cl, ok := cond.(*ssa.Call); ok {
+		if g := cl.Call.StaticCallee(); g != nil && inModule(g) && g.Blocks != nil && g.Object() != nil && !g.Object().Exported() && isBoolType(cl.Type()) {
+			if rs := returnsOf(g); len(rs) == 1 && len(rs[0].Results) == 1 && c.condDepth < 3 {
+				old := c.condEnv
+				c.condEnv = c.calleeEnv(&cl.Call, g, old)
+				c.condDepth++
+				out := c.canonCond(returnedValue(rs[0], 0), truth)
+				c.condDepth--
+				c.condEnv = old
+				return out
+			}
+		}
 	}
 	isIdx := func(v ssa.Value) (string, bool) {
 		cl, ok := v.(*ssa.Call)
